@@ -12,6 +12,9 @@ class Ctx:
         self.scope_names = 0
         self.task_names = 0
         self.log_id = 0
+        self.res_next = len(profile.get('resources', []))
+        self.res_dims = {i: len(r[1]) for i, r in enumerate(profile.get('resources', []))}
+        self.res_open = {i: r[0] for i, r in enumerate(profile.get('resources', []))}   # name -> is capacities/borrowed
 
     def new_scope(self):
         self.scope_names += 1
@@ -20,6 +23,10 @@ class Ctx:
     def new_task(self):
         self.task_names += 1
         return self.task_names - 1
+
+    def new_item(self):
+        self.item = getattr(self, 'item', 0) + 1
+        return self.item
 
     def log(self):
         self.log_id += 1
@@ -44,6 +51,11 @@ def gen_cexpr(cx, depth, tasks, allow_time=True):
         if rng.random() < 0.15:
             e = ['inv', e]
         return e
+    if cx.p.get('tracked') and rng.random() < cx.p.get('tracked_atoms', 0.0):
+        return ['tracked', rng.randrange(len(cx.p['tracked'])), rng.randrange(6), rng.randint(0, 6)]
+    if cx.p.get('resources') and rng.random() < cx.p.get('res_atoms', 0.0):
+        r = rng.randrange(len(cx.p['resources']))
+        return ['reslevel', r, rng.choice([4, 4, 0, 5, 1, 2, 3]), [rng.randint(0, 6) for _ in range(cx.res_dims[r])]]
     a = rng.choice(atoms)
     nf = cx.p['flags']
     if a == 'flag':
@@ -95,6 +107,8 @@ def gen_block(cx, depth, scopes, tasks, n=None, top=False):
             out.append(cx.log())
         elif k == 'sleep':
             out.append(['sleep', rng.choice(GRID)])
+        elif k == 'timewait':
+            out.append(['await', [rng.choice(['after', 'moment', 'before']), rng.choice(DATES)]])
         elif k == 'await':
             c = gen_cexpr(cx, p.get('cdepth', 2), tasks)
             if not p.get('known_regions', False):
@@ -112,7 +126,7 @@ def gen_block(cx, depth, scopes, tasks, n=None, top=False):
                     d = rng.choice(GRID)
                     un = ['delay', d]
                 else:
-                    c = gen_cexpr(cx, 1, tasks)
+                    c = gen_cexpr(cx, 1, tasks) if not p.get('timeonly') else [rng.choice(['after', 'moment']), rng.choice(DATES)]
                     if is_connective(c) and not p.get('known_regions', False):
                         c = ['flag', rng.randrange(p['flags'])]     # F10: until(connective) never fires
                     un = ['cond', c]
@@ -146,6 +160,65 @@ def gen_block(cx, depth, scopes, tasks, n=None, top=False):
             out.append(['lock', rng.randrange(p['locks'])] + gen_block(cx, depth - 1, scopes, tasks))
         elif k == 'avail' and p.get('locks', 0):
             out.append(['avail', rng.randrange(p['locks'])])
+        elif k == 'qput' and p.get('queues'):
+            out.append(['qput', rng.randrange(p['queues']), cx.new_item()])
+        elif k == 'qget' and p.get('queues'):
+            out.append(['qget', rng.randrange(p['queues'])])
+        elif k == 'qclose' and p.get('queues'):
+            out.append(['qclose', rng.randrange(p['queues'])])
+        elif k == 'qiter' and p.get('queues') and depth > 0:
+            out.append(['qiter', rng.randrange(p['queues']), rng.randint(0, 4)] + gen_block(cx, 0, scopes, tasks, rng.randint(0, 2)))
+        elif k == 'cput' and p.get('chans'):
+            out.append(['cput', rng.randrange(p['chans']), cx.new_item()])
+        elif k == 'cget' and p.get('chans'):
+            out.append(['cget', rng.randrange(p['chans'])])
+        elif k == 'cclose' and p.get('chans'):
+            out.append(['cclose', rng.randrange(p['chans'])])
+        elif k == 'citer' and p.get('chans') and depth > 0:
+            out.append(['citer', rng.randrange(p['chans']), rng.randint(0, 4)] + gen_block(cx, 0, scopes, tasks, rng.randint(0, 2)))
+        elif k == 'settracked' and p.get('tracked'):
+            out.append([rng.choice(['settracked', 'addtracked']), rng.randrange(len(p['tracked'])), rng.randint(-2, 6)])
+        elif k in ('borrow', 'claim') and p.get('resources') and depth > 0:
+            r = rng.choice(sorted(cx.res_dims)) if rng.random() < p.get('nested_borrow', 0.25) else rng.randrange(len(p['resources']))
+            name = cx.res_next
+            cx.res_next += 1
+            cx.res_dims[name] = cx.res_dims[r]
+            cx.res_open[name] = True
+            am = [rng.randint(0, p.get('max_amount', 5)) for _ in range(cx.res_dims[r])]
+            out.append([k, r, am, name] + gen_block(cx, depth - 1, scopes, tasks))
+        elif k == 'reschange' and p.get('resources'):
+            cands = [i for i, r in enumerate(p['resources']) if not r[0]]
+            if cands:
+                r = rng.choice(cands)
+                kind = rng.randrange(3)
+                am = [rng.randint(0, 3) for _ in range(cx.res_dims[r])]
+                if kind == 2:
+                    am = [rng.choice([-1, rng.randint(0, 8)]) for _ in range(cx.res_dims[r])]
+                out.append(['reschange', r, kind, am])
+        elif k == 'levels' and p.get('resources'):
+            out.append(['levels', rng.choice(sorted(cx.res_dims))])
+        elif k == 'transfer' and p.get('pipes'):
+            out.append(['transfer', rng.randrange(len(p['pipes'])), rng.choice(p.get('volumes', [0, 1, 2, 3, 4, 6])),
+                        rng.choice(p.get('limits', [None, None, 1, 2, 3, 4]))])
+        elif k == 'interval' and depth > 0:
+            out.append([rng.choice(['interval', 'delayiter']), rng.choice(GRID), rng.randint(0, 3)] +
+                       gen_block(cx, 0, scopes, tasks, rng.randint(0, 2)))
+        elif k == 'collect' and depth > 0:
+            progs = []
+            for _ in range(rng.randint(0, 3)):
+                pr = gen_block(cx, depth - 1, scopes, tasks)
+                if rng.random() < 0.6:
+                    pr.append(['ret', rng.randint(1, 9)])
+                progs.append(['prog'] + pr)
+            out.append(['collect'] + progs)
+        elif k == 'nestedrun' and depth > 0 and p.get('nested', False):
+            # objects must not be shared between simulations: the inner programs only use time
+            saved = cx.p
+            cx.p = dict(saved, weights={'log': 3, 'sleep': 3, 'raise': 0.3, 'interval': 0.5, 'timewait': 1.5, 'scope': 0.5},
+                        timeonly=True)
+            progs = [['prog'] + gen_block(cx, 1, [], [], rng.randint(1, 3)) for _ in range(rng.randint(1, 2))]
+            cx.p = saved
+            out.append(['nestedrun', rng.choice(DATES)] + progs)
         else:
             out.append(cx.log())
         _ = r
@@ -196,5 +269,16 @@ def gen_scenario(rng, profile=None):
             prog.append(['ret', rng.randint(0, 3)])
         roots.append(['prog'] + prog)
     start = rng.choice(p.get('starts', [0, 0, 0, 1, F(1, 2)]))
-    return ['scenario', ['debug', 1], ['start', start], ['flags', p['flags']], ['locks', p['locks']],
-            ['roots'] + roots]
+    sc = ['scenario', ['debug', 1], ['start', start], ['flags', p['flags']], ['locks', p['locks']]]
+    if p.get('queues'):
+        sc.append(['queues', p['queues']])
+    if p.get('chans'):
+        sc.append(['chans', p['chans']])
+    if p.get('tracked'):
+        sc.append(['tracked'] + list(p['tracked']))
+    if p.get('resources'):
+        sc.append(['resources'] + [['res', 1 if r[0] else 0] + list(r[1]) for r in p['resources']])
+    if p.get('pipes'):
+        sc.append(['pipes'] + list(p['pipes']))
+    sc.append(['roots'] + roots)
+    return sc
